@@ -592,3 +592,137 @@ def _must_pass(self, rule, fn, required, descr=None, from_blocks=None, exits="re
 
 
 Run.must_pass = _must_pass
+
+
+def P(index, close=False):
+    """seed function: the locals holding parameter #index (0-based incl. self) of the source-level function"""
+    from flow import param_locals
+
+    def f(body):
+        s = param_locals(body._facts, body, index)
+        return Taint(body).closure(s) if close else s
+    return f
+
+
+def PL(body, index):
+    from flow import param_locals
+    return param_locals(body._facts, body, index)
+
+
+# ------------------------------------------------------------------ "for all elements of a field" (loop or Iterator::all)
+
+DROPPING_ADAPTORS = ("::filter", "::filter_map", "::take", "::skip", "::take_while", "::skip_while", "::step_by", "::find", "::find_map",
+                     "::nth", "::last", "::first", "::flat_map", "::flatten", "::map_while", "::rev") 
+
+
+def _chain_calls(F, body, local, depth=2):
+    """callee names on the backward chain of `local`, following workspace helpers' returned values (depth-limited)"""
+    from flow import backward_calls
+    locs, calls = backward_calls(body, local)
+    names = [(c["ncallee"] or c.get("ngen") or "?") for c in calls]
+    fields = set()
+    for b in body.blocks:
+        for s in b["stmts"]:
+            if s["d"][0] in locs:
+                rv = s["rv"]
+                p = rv["a"][1] if rv["k"] == "use" and rv["a"][0] in ("cp", "mv") else rv.get("p") if rv["k"] in ("ref", "discr") else None
+                if p:
+                    fields |= {e[1:] for e in p[1:] if e.startswith(".") and not e[1:].isdigit() and not e.startswith(".upv")}
+    if depth > 0:
+        for c in calls:
+            for hb in F.by_npath.get(c["ncallee"] or "", []):
+                if hb.crate == body.crate and hb.kind != "closure":
+                    prep(hb)
+                    n2, f2 = _chain_calls(F, hb, 0, depth - 1)
+                    names += n2
+                    fields |= f2
+    return names, fields
+
+
+def forall_over_field(self, rule, fn, field, check_pats, descr, extra_ok_checks=()):
+    """Every element of `self.<field>` must pass `check` for `fn` to return true.
+
+    Accepts two idioms: (A) a `for` loop whose body returns false on a failing check (K4r), and (B)
+    `iter().all(|x| check(x))` where the closure's return value is only ever the check's verdict or `false`.
+    In both, the iterated value must come from the field with no element-dropping adaptor on the way."""
+    F = self.F
+    body = self.body(rule, fn)
+    if body is None:
+        return False
+    prep(body)
+    g = cfg_of(body)
+    ok = True
+    form = None
+    # consumer
+    alls = [b for b in body.blocks if b["term"]["k"] == "call" and not b["cleanup"] and (b["term"]["ngen"] or "").endswith("iterator::Iterator::all")]
+    loops = [b for b in body.blocks if b["term"]["k"] == "call" and not b["cleanup"] and (b["term"]["ngen"] or "").endswith("collect::IntoIterator::into_iter")]
+    direct = [b for b in body.blocks if b["term"]["k"] == "call" and not b["cleanup"] and callee_matches(b["term"], check_pats)]
+    src_local = None
+    if direct and loops:
+        form = "loop"
+        gd = CallGuard(check_pats, ("true",), "every element passes %s" % check_pats[0].split("::")[-1])
+        ok = self.gate_reject(rule + ".loop", body, RetSink("true"), [gd] + list(extra_ok_checks), descr=descr + " (loop form)")
+        # the loop whose body holds the check
+        cand = [l for l in loops if direct[0]["id"] in g.reach((l["id"],))]
+        src_local = op_local(cand[-1]["term"]["args"][0]) if cand else None
+    elif alls:
+        form = "all"
+        a = alls[0]
+        src_local = op_local(a["term"]["args"][0])
+        # closure argument
+        cl = None
+        for arg in a["term"]["args"][1:]:
+            ty = body.locals.get(str(op_local(arg)), "")
+            for c in F.item(F.root_of(body).path):
+                if c.kind == "closure" and (":%d:" % c.lines[0]) in ty:
+                    cl = c
+        if cl is None:
+            ok = False
+            self.viol(rule, "all-closure-missing", "cannot find the closure given to Iterator::all in %s" % body.path, body, a["term"]["l"])
+        else:
+            prep(cl)
+            verdicts = {blk["term"]["d"][0] for blk in cl.blocks if blk["term"]["k"] == "call" and callee_matches(blk["term"], check_pats)}
+            vt = Taint(cl).closure(verdicts)
+            bad = []
+            for blk in cl.blocks:
+                for s in blk["stmts"]:
+                    if s["d"] == [0]:
+                        rv = s["rv"]
+                        if rv["k"] == "use" and rv["a"][0] == "c" and rv["a"][1] == "false":
+                            continue
+                        if rv["k"] == "use" and op_local(rv["a"]) in vt:
+                            continue
+                        bad.append(s["l"])
+                t = blk["term"]
+                if t["k"] == "call" and t["d"] == [0] and not callee_matches(t, check_pats):
+                    bad.append(t["l"])
+            if not verdicts or bad:
+                ok = False
+                self.viol(rule, "all-closure-verdict", "the closure given to all() in %s can return something other than the verdict of %s" % (body.path, check_pats[0]), cl, (bad or [cl.lines[0]])[0])
+            # all()'s result is what is returned (or gates the true return)
+            rt = Taint(body).closure({a["term"]["d"][0]})
+            trues = RetSink("true").blocks(body)
+            ret_ok = all(s["rv"]["k"] == "use" and (op_local(s["rv"]["a"]) in rt or (s["rv"]["a"][0] == "c" and s["rv"]["a"][1] == "false"))
+                         for blk in body.blocks for s in blk["stmts"] if s["d"] == [0]) and a["term"]["d"] != [0] or a["term"]["d"] == [0]
+            if trues or not ret_ok:
+                ok = False
+                self.viol(rule, "all-result", "%s can return true without the all(..) verdict" % body.path, body, a["term"]["l"])
+            self.inst(rule + ".all", "K4 gate", descr + " (Iterator::all form)", 1, ok)
+    else:
+        ok = False
+        self.viol(rule, "forall-missing", "%s has neither a loop nor an all() applying %s to the elements of .%s" % (body.path, check_pats[0], field), body, body.lines[0])
+    # iteration source
+    if src_local is not None:
+        names, fields = _chain_calls(F, body, src_local)
+        dropped = [n for n in names if any(n.endswith(x) or (x + "<") in n for x in DROPPING_ADAPTORS)]
+        src_ok = field in fields and not dropped
+        if not src_ok:
+            ok = False
+            self.viol(rule, "forall-source:%s" % (dropped[0] if dropped else "not-" + field),
+                      "%s does not apply the check to *every* element of .%s (%s)" % (body.path, field, "elements can be dropped by " + dropped[0] if dropped else "iterates something else"),
+                      body, body.lines[0])
+        self.inst(rule + ".source", "K6 flows-to", "the check ranges over all of .%s, no element-dropping adaptor on the way" % field, len(names), src_ok, {"form": form, "chain": names[:10]})
+    return ok
+
+
+Run.forall_over_field = forall_over_field
